@@ -30,7 +30,9 @@ ASSUMPTIONS = [
     "'equal to what a newly constructed instance would hold' is decided against an instance constructed with no arguments in the same world",
     "whether a default exists is decided from the descriptor (nearest class along the MRO giving the name a value), not from library metadata",
 ]
-PROFILE = dict(grammar.PROFILES["data_plain"], flags=False)  # do_not_copy attributes are by design not copied by the constructor
+# do_not_copy attributes are by design not copied by the constructor: only a spec subclass may add an inherited attribute
+# to its own do_not_copy list (which must not leak into its parent's behaviour)
+PROFILE = dict(grammar.PROFILES["data_plain"], flags=False, subclass_dnc=True)
 
 
 @st.composite
@@ -44,7 +46,10 @@ def case_strategy(draw):
         m = src.choice(10)
         on = src.choice(4)
         if m == 0 or (len(steps) == 1 and src.chance(1, 2)):
-            steps.append(dict(ops.gen_new(src, info), on=on))
+            new = dict(ops.gen_new(src, info), on=on)
+            if wd["instance_class"] == "R" and src.chance(1, 2):
+                new = dict(ops.gen_new(src, info, cname="M"), on=on, cls="M")  # an instance of the parent spec class
+            steps.append(new)
         elif m <= 2:
             a = src.pick(names)
             steps.append({"t": "call", "m": f"reset_{a}", "a": [], "k": {"_inplace": True} if src.chance(2, 3) else {}, "on": on, "reset": [a]})
@@ -57,6 +62,15 @@ def case_strategy(draw):
             op["on"] = on
             steps.append(op)
     return {"world": wd, "ops": steps}
+
+
+def class_dnc(world, cname):
+    out = set()
+    for c in world.mro_descs(cname):
+        d = (c.get("opts") or {}).get("do_not_copy")
+        if isinstance(d, list):
+            out.update(d)
+    return out
 
 
 def has_default(world, attr):
@@ -73,7 +87,7 @@ def run_case(ctx, case):
         for name in world.all_attrs.get(cname, {}):
             if name in vars(cls):
                 cls_defaults.append(vars(cls)[name])
-    fresh = None
+    fresh_by_class = {}
     nested_edit = saw_reset_after = False
 
     class Multi:
@@ -97,7 +111,7 @@ def run_case(ctx, case):
             rec = []
             before = Multi(guarded() + [pool])
             try:
-                inst = ops.construct(world, op, record=rec)
+                inst = ops.construct(world, op, cname=op.get("cls"), record=rec)
             except ops.CLEAN:
                 continue
             ch = before.changed()
@@ -111,8 +125,16 @@ def run_case(ctx, case):
                 foreign.update(mutable_ids(o))
             shared = [mine[k] for k in mine if k in foreign]
             own_args = {}
+            dnc = class_dnc(world, type(inst).__name__)
+            for name, r in zip(op["k"], [None] * len(op["k"])):
+                pass
             for r in rec:
                 own_args.update(mutable_ids(r))
+            # arguments of attributes that are do_not_copy *for this class* are stored as given, by design
+            for name in dnc:
+                v = object.__getattribute__(inst, "__dict__").get(name)
+                for k in mutable_ids(v):
+                    own_args.pop(k, None)
             leaked = [mine[k] for k in mine if k in own_args]
             if shared:
                 ctx.fail(f"new|shares:{type(shared[0]).__name__}", case, f"step {i}: new instance shares {shared[0]!r} with a default / argument / other instance")
@@ -121,7 +143,10 @@ def run_case(ctx, case):
                 ctx.fail(f"new|keeps_argument:{type(leaked[0]).__name__}", case, f"step {i}: new instance holds the caller's argument object {leaked[0]!r} itself (not a copy)")
                 return
             pool.append(inst)
-            args.extend(rec)
+            # caller-owned argument objects are guarded from now on - except those of do_not_copy attributes, which the
+            # instance holds by identity by design
+            held = {id(v) for n, v in object.__getattribute__(inst, "__dict__").items() if n in dnc}
+            args.extend(r for r in rec if id(r) not in held)
             continue
         if not pool:
             continue
@@ -150,25 +175,29 @@ def run_case(ctx, case):
                 target = value  # copy-on-write reset: the copy carries the reset
                 if not hasattr(target, "__spec_class__"):
                     continue
-            names = list(world.attrs()) if op["reset"] == "all" else ([op["attr"]] if op["reset"] == "del" else op["reset"])
-            if fresh is None:
+            tcls = type(target).__name__
+            tattrs = world.attrs(tcls)
+            names = list(tattrs) if op["reset"] == "all" else ([op["attr"]] if op["reset"] == "del" else op["reset"])
+            if tcls not in fresh_by_class:
                 try:
-                    fresh = world.cls()
+                    fresh_by_class[tcls] = world.classes[tcls]()
                 except ops.CLEAN:
-                    fresh = False
+                    fresh_by_class[tcls] = False
+            fresh = fresh_by_class[tcls]
             td = object.__getattribute__(target, "__dict__")
             for name in names:
-                if name not in world.attrs():
+                if name not in tattrs:
                     continue
+                dd = world.declared_default(name, tcls)
                 # dependants invalidated by this reset are reset too; only the named attributes are asserted
-                if not has_default(world, name):
+                if dd[0] in ("none", "attr_none"):
                     if name in td:
                         ctx.fail(f"{route}|reset_not_missing", case, f"step {i} {op}: {name!r} has no default but holds {td[name]!r} after the reset")
                         return
                     continue
                 if name not in td:
-                    ctx.fail(f"{route}|reset_lost_default:{world.declared_default(name)[0]}", case,
-                             f"step {i} {op}: {name!r} is missing after the reset although the class prescribes the default {world.declared_default(name)}")
+                    ctx.fail(f"{route}|reset_lost_default:{dd[0]}", case,
+                             f"step {i} {op}: {name!r} is missing after the reset although the class prescribes the default {dd}")
                     return
                 if fresh:
                     fd = object.__getattribute__(fresh, "__dict__")
@@ -179,16 +208,16 @@ def run_case(ctx, case):
                                      f"step {i} {op}: {name!r} is {td[name]!r} after the reset; a newly constructed {type(target).__name__} holds {fd[name]!r} "
                                      f"(the default is changed by the attribute's own preparer, which reset does not run)")
                             return
-                        ctx.fail(f"{route}|reset_wrong_value:{world.declared_default(name)[0]}", case,
+                        ctx.fail(f"{route}|reset_wrong_value:{dd[0]}", case,
                                  f"step {i} {op}: {name!r} is {td[name]!r} after the reset; a newly constructed {type(target).__name__} holds {fd[name]!r}")
                         return
                 mine = mutable_ids(td[name])
                 foreign = {}
-                for o in (defaults, cls_defaults, [x for x in pool if x is not target], [fresh] if fresh else []):
+                for o in (defaults, cls_defaults, [x for x in pool if x is not target], [f for f in fresh_by_class.values() if f]):
                     foreign.update(mutable_ids(o))
                 shared = [mine[k] for k in mine if k in foreign]
                 if shared:
-                    ctx.fail(f"{route}|reset_shares:{world.declared_default(name)[0]}", case,
+                    ctx.fail(f"{route}|reset_shares:{dd[0]}", case,
                              f"step {i} {op}: after the reset {name!r} shares {shared[0]!r} with the class-level default or another instance")
                     return
             if nested_edit:
